@@ -100,6 +100,8 @@ pub struct BrokerCfg {
     pub script: Vec<(Trigger, Action)>,
     /// cut the server->client stream at this absolute offset
     pub s2c_cut: Option<(usize, CutKind)>,
+    /// flip every bit of the octet at this absolute offset of the server->client stream
+    pub s2c_corrupt: Option<usize>,
     /// frames per mux flush (upper bound)
     pub mux_burst_max: u32,
     pub mux_gap_max_ns: u64,
@@ -164,6 +166,7 @@ impl Default for BrokerCfg {
             eof_after_server_close: true,
             script: Vec::new(),
             s2c_cut: None,
+            s2c_corrupt: None,
             mux_burst_max: 1,
             mux_gap_max_ns: 0,
             handshake: None,
@@ -550,6 +553,12 @@ impl Broker {
                 cut_now = Some(kind.clone());
             }
         }
+        if let Some(c) = self.cfg.s2c_corrupt {
+            if c >= start && c < start + bytes.len() {
+                bytes[c - start] ^= 0xFF;
+                self.stats.scripted_actions += 1;
+            }
+        }
         self.s2c.extend_from_slice(&bytes);
         let now = simrt::now_ns();
         let lat = if self.cfg.s2c_lat_max_ns > self.cfg.s2c_lat_min_ns {
@@ -599,7 +608,7 @@ impl Broker {
     }
 
     pub fn send_eof(&mut self, reset: bool) {
-        if self.s2c_closed {
+        if self.s2c_closed || self.silent {
             return;
         }
         // anything still on the mux queues goes out first
